@@ -9,7 +9,7 @@ def jobs(tier):
     # every function of basic/*.c with all CBMC safety checks and NO well-formedness precondition on the
     # input bytes (the line buffer and the ghost file are unconstrained in every harness)
     for d in range(6):
-        t = "quick" if d in (3, 4) else "thorough"      # Windows (fast variables), Mac; others run under C03/C09
+        t = "quick" if d in (3, 4, 5) else "thorough"   # Windows (fast variables), Mac, PDP11 (0xC8 peek-ahead); others run under C03/C09
         js += B.line_level(Job, d, cfg, t)
         js.append(B.framing(Job, d, cfg, t))
         js.append(B.new_decoder(Job, d, cfg, "quick"))
